@@ -5,7 +5,8 @@
         -> lines "S <schedule> | <observations>" then "END <n>"
      R <h0> <call> ... | <schedule>   run one schedule -> "<observations>" or "REFUSED@<i>"
      W                                the witness schedules -> "W <name> <h0> <calls> | <schedule>"
-     T                                "T <table_shape_ok> <lk_sched lk_next lk_hasp lk_set lk_clear lk_ntest lk_ncall>"
+     T                                "T <table_shape_ok> <lk_sched lk_next lk_hasp lk_set lk_clear lk_ntest lk_ncall> <handover of the table> <handover_fact>"
+                                      (handover: future = before the repair of the exit window, flag = running_ protocol, unrecognised)
    calls: SM:rrr SU:rrr (r: 1 ok, 0 fails, 2 throws) IM J C K<n> G<n> F<n> D<n> H1 H0 P<r> ; schedule: letters c / w;
    E also prints probe lines "B <prefix>C | <observations of the prefix>" (C = a client step the model refuses) *)
 let c0 = cfg_of_table lock_scopes
@@ -91,12 +92,21 @@ let () =
              (String.concat " " (List.map string_of_call sc)) (string_of_sched sch) in
          p "window_sync" 1 witness_window_script witness_window_sched;
          p "window_start_maintenance" 1 witness_window_sm_script witness_window_sched;
+         (* the repaired hand-over: the same schedule continued to the end of the script, and tasks scheduled just
+            before the worker's exit test (both are schedules of the model only when the table shows the flag protocol;
+            on the old hand-over they are refused or end in the exit window, which the oracles then report) *)
+         if nw c0 then begin
+           p "window_closed" 1 witness_window_script witness_closed_sched;
+           p "window_closed_start_maintenance" 1 witness_window_sm_script witness_closed_sched;
+           p "window_seen" 1 witness_window_script witness_seen_sched end;
          p "badcall" 1 witness_badcall_script witness_badcall_sched;
          p "race" 1 witness_badcall_script witness_race_sched;
          print_endline "END"
        | ["T"] ->
-         Printf.printf "T %d %d %d %d %d %d %d %d\n" (b (table_shape_ok lock_scopes)) (b c0.lk_sched) (b c0.lk_next)
+         let hs = function HFuture -> "future" | HFlag -> "flag" | HUnrecognised -> "unrecognised" in
+         Printf.printf "T %d %d %d %d %d %d %d %d %s %s\n" (b (table_shape_ok lock_scopes)) (b c0.lk_sched) (b c0.lk_next)
            (b c0.lk_hasp) (b c0.lk_set) (b c0.lk_clear) (b c0.lk_ntest) (b c0.lk_ncall)
+           (hs (handover_of_table lock_scopes)) (hs handover_fact)
        | _ -> print_endline "BADLINE");
       flush stdout
     done
